@@ -20,6 +20,7 @@ import (
 	"fmt"
 	"os"
 	"os/exec"
+	"regexp"
 	"runtime"
 	"sort"
 	"strconv"
@@ -339,6 +340,21 @@ func vwProcess(env *vwEnv, allow, deny int, order int64, key, value []byte) (res
 	return sb.String()
 }
 
+func vwBit(b bool) string {
+	if b {
+		return "1"
+	}
+	return "0"
+}
+
+// vwStripInfo drops the measured-allocation part of a result line.
+func vwStripInfo(res string) string {
+	if i := strings.Index(res, " | "); i >= 0 {
+		return res[:i]
+	}
+	return res
+}
+
 func vwRunCase(env *vwEnv, line string) string {
 	tk := &vwToks{f: strings.Fields(line)}
 	switch tk.next() {
@@ -358,12 +374,35 @@ func vwRunCase(env *vwEnv, line string) string {
 		key, value := vwEncMeta(tk)
 		return "K " + vwHex(string(key)) + " V " + vwHex(string(value)) + " => " + vwProcess(env, allow, deny, order, key, value)
 	case "re":
+		// the module's accept decision, observed through the pinned entry point only: a well-formed offset commit for
+		// the group yields its update exactly when the lists accept the group
 		allow, deny := tk.int(), tk.int()
 		g := tk.hexb()
-		if env.module(allow, deny).acceptConsumerGroup(string(g)) {
+		var k, v vwWriter
+		k.i16(1)
+		k.str(&g)
+		k.str(&[]byte{'t'})
+		k.i32(0)
+		v.i16(0)
+		v.i64(1)
+		v.str(nil)
+		v.i64(2)
+		if strings.HasPrefix(vwProcess(env, allow, deny, 0, k.Bytes(), v.Bytes()), "OK 1 ") {
 			return "ACC 1"
 		}
 		return "ACC 0"
+	case "c10":
+		// C10, reader half: what the real regexp package answers for the configured patterns on the group (four
+		// booleans), what the module forwards for the message with the lists, and what it forwards without any list
+		allow, deny := tk.int(), tk.int()
+		order := tk.i64()
+		g := tk.hexb()
+		key, value := tk.hexb(), tk.hexb()
+		aM := allow != 0 && regexp.MustCompile(vwPatterns[allow]).MatchString(string(g))
+		dM := deny != 0 && regexp.MustCompile(vwPatterns[deny]).MatchString(string(g))
+		with := vwStripInfo(vwProcess(env, allow, deny, order, key, value))
+		without := vwStripInfo(vwProcess(env, 0, 0, order, key, value))
+		return fmt.Sprintf("B %s %s %s %s => %s || %s", vwBit(allow != 0), vwBit(aM), vwBit(deny != 0), vwBit(dM), with, without)
 	}
 	return "BADCASE"
 }
